@@ -75,6 +75,25 @@ theorem walk_traverses_rounded_values (g : Graph) (vals : Edge → Rat) (m : Edg
     (walkEdges (s :: walkOfValues g vals s t ++ [t])).count e = if e ∈ g.edges then m e else 0 :=
   FP.WDM.walkOfValues_count g vals m s t h hv e
 
+/-- the layer decode of the walk models (`decodeWalkLayer`, the function the C05/C09/C10 LP
+theorems speak about) is this very function, applied to the solver's values of layer `i` -/
+theorem decodeWalkLayer_eq_walkOfValues (s : STGraph) (a : Asg) (i : Nat) :
+    decodeWalkLayer s a i = walkOfValues s.g (fun e => a (edgeVar e i)) s.source s.sink := rfl
+
+/-- and the multiplicities the LP theorems use are the rounded counts -/
+theorem decodeWalkLayer_eq_walkOfMult (s : STGraph) (a : Asg) (i : Nat) :
+    decodeWalkLayer s a i = walkOfMult s.g (multOf a i) s.source s.sink := rfl
+
+/-- `walk_traverses_rounded_values` for `get_solution_walks` of a walk model: layer `i` of the
+decoded solution traverses each edge exactly `m e` times whenever every `edge_vars_sol` value of
+the layer is within `< 1/2` of `m e` -/
+theorem decodeWalkLayer_traverses_rounded_values (s : STGraph) (a : Asg) (i : Nat) (m : Edge → Nat)
+    (h : MultST s.g m s.source s.sink)
+    (hv : ∀ e, (m e : Rat) - 1/2 < a (edgeVar e i) ∧ a (edgeVar e i) < (m e : Rat) + 1/2) (e : Edge) :
+    (walkEdges (s.source :: decodeWalkLayer s a i ++ [s.sink])).count e
+      = if e ∈ s.g.edges then m e else 0 :=
+  walk_traverses_rounded_values s.g (fun e => a (edgeVar e i)) m s.source s.sink h hv e
+
 /-! ### non-vacuity: a 2-cycle traversed twice plus a self-loop -/
 namespace Example
 
